@@ -32,6 +32,19 @@ type c10Scenario struct {
 	Files map[string]string `json:"files"`
 	Args  []string          `json:"args"`
 	Mid   []string          `json:"mid,omitempty"` // program reaching an intermediate committed state (explicit COMMIT inside Args)
+	Links map[string]string `json:"links,omitempty"` // symbolic links created next to the files: name -> target (a table reached through a link)
+}
+
+// tables of the scenario with their contents before the transaction (a link holds what its target holds)
+func (sc c10Scenario) old() map[string]string {
+	m := map[string]string{}
+	for n, b := range sc.Files {
+		m[n] = b
+	}
+	for n, t := range sc.Links {
+		m[n] = sc.Files[t]
+	}
+	return m
 }
 
 func c10Scenarios(thorough bool) []c10Scenario {
@@ -41,23 +54,26 @@ func c10Scenarios(thorough bool) []c10Scenario {
 	tsv := "a\tb\n1\tx\n2\ty\n"
 	js := "[{\"a\":\"1\",\"b\":\"x\"},{\"a\":\"2\",\"b\":\"y\"}]\n"
 	scs := []c10Scenario{
-		{"update-1", map[string]string{"t.csv": small}, []string{"UPDATE t SET b = 'z' WHERE a = 1"}, nil},
-		{"update-1-shrinks", map[string]string{"t.csv": big}, []string{"DELETE FROM t WHERE a = 1"}, nil},
-		{"update-1-grows", map[string]string{"t.csv": small}, []string{"INSERT INTO t VALUES (3,'" + strings.Repeat("w", 300) + "'),(4,'v')"}, nil},
-		{"update-2", map[string]string{"t.csv": small, "u.csv": u}, []string{"UPDATE t SET b = 'z' WHERE a = 1; UPDATE u SET d = 'r';"}, nil},
-		{"update-1-create-1", map[string]string{"t.csv": small}, []string{"UPDATE t SET b = 'z'; CREATE TABLE `n.csv` (c1, c2); INSERT INTO n VALUES (1, 2);"}, nil},
-		{"create-only", map[string]string{"t.csv": small}, []string{"CREATE TABLE `n.csv` (c1, c2); INSERT INTO n VALUES (1, 2);"}, nil},
-		{"alter-add", map[string]string{"t.csv": small}, []string{"ALTER TABLE t ADD c DEFAULT 0"}, nil},
-		{"replace", map[string]string{"t.csv": small}, []string{"REPLACE INTO t (a, b) USING (a) VALUES (2, 'q'), (5, 'n')"}, nil},
-		{"update-commit-update", map[string]string{"t.csv": small}, []string{"UPDATE t SET b = 'z' WHERE a = 1; COMMIT; UPDATE t SET b = 'w' WHERE a = 2;"}, []string{"UPDATE t SET b = 'z' WHERE a = 1"}},
-		{"update-tsv", map[string]string{"t.tsv": tsv}, []string{"UPDATE t SET b = 'z' WHERE a = 1"}, nil},
-		{"update-json", map[string]string{"t.json": js}, []string{"UPDATE t SET b = 'z' WHERE a = 1"}, nil},
+		{"update-1", map[string]string{"t.csv": small}, []string{"UPDATE t SET b = 'z' WHERE a = 1"}, nil, nil},
+		{"update-1-shrinks", map[string]string{"t.csv": big}, []string{"DELETE FROM t WHERE a = 1"}, nil, nil},
+		{"update-1-grows", map[string]string{"t.csv": small}, []string{"INSERT INTO t VALUES (3,'" + strings.Repeat("w", 300) + "'),(4,'v')"}, nil, nil},
+		{"update-2", map[string]string{"t.csv": small, "u.csv": u}, []string{"UPDATE t SET b = 'z' WHERE a = 1; UPDATE u SET d = 'r';"}, nil, nil},
+		{"update-1-create-1", map[string]string{"t.csv": small}, []string{"UPDATE t SET b = 'z'; CREATE TABLE `n.csv` (c1, c2); INSERT INTO n VALUES (1, 2);"}, nil, nil},
+		{"create-only", map[string]string{"t.csv": small}, []string{"CREATE TABLE `n.csv` (c1, c2); INSERT INTO n VALUES (1, 2);"}, nil, nil},
+		{"alter-add", map[string]string{"t.csv": small}, []string{"ALTER TABLE t ADD c DEFAULT 0"}, nil, nil},
+		{"replace", map[string]string{"t.csv": small}, []string{"REPLACE INTO t (a, b) USING (a) VALUES (2, 'q'), (5, 'n')"}, nil, nil},
+		{"update-commit-update", map[string]string{"t.csv": small}, []string{"UPDATE t SET b = 'z' WHERE a = 1; COMMIT; UPDATE t SET b = 'w' WHERE a = 2;"}, []string{"UPDATE t SET b = 'z' WHERE a = 1"}, nil},
+		{"update-tsv", map[string]string{"t.tsv": tsv}, []string{"UPDATE t SET b = 'z' WHERE a = 1"}, nil, nil},
+		{"update-json", map[string]string{"t.json": js}, []string{"UPDATE t SET b = 'z' WHERE a = 1"}, nil, nil},
+		// the table is a symbolic link: to a file in the same directory, to a file in another directory
+		{"update-through-link", map[string]string{"real.csv": big}, []string{"DELETE FROM t WHERE a = 1"}, nil, map[string]string{"t.csv": "real.csv"}},
+		{"update-through-link-to-other-directory", map[string]string{"store/real.csv": small}, []string{"UPDATE t SET b = 'z' WHERE a = 1"}, nil, map[string]string{"t.csv": "store/real.csv"}},
 	}
 	if thorough {
 		scs = append(scs,
-			c10Scenario{"update-3", map[string]string{"t.csv": small, "u.csv": u, "v.csv": big}, []string{"UPDATE t SET b = 'z'; UPDATE u SET d = 'r'; DELETE FROM v WHERE a = 2;"}, nil},
-			c10Scenario{"update-2-create-2", map[string]string{"t.csv": small, "u.csv": u}, []string{"CREATE TABLE `n.csv` (c1); UPDATE t SET b = 'z'; CREATE TABLE `m.csv` (c1); UPDATE u SET d = 'r'; INSERT INTO m VALUES (1);"}, nil},
-			c10Scenario{"drop-column-big", map[string]string{"t.csv": big}, []string{"ALTER TABLE t DROP b"}, nil},
+			c10Scenario{"update-3", map[string]string{"t.csv": small, "u.csv": u, "v.csv": big}, []string{"UPDATE t SET b = 'z'; UPDATE u SET d = 'r'; DELETE FROM v WHERE a = 2;"}, nil, nil},
+			c10Scenario{"update-2-create-2", map[string]string{"t.csv": small, "u.csv": u}, []string{"CREATE TABLE `n.csv` (c1); UPDATE t SET b = 'z'; CREATE TABLE `m.csv` (c1); UPDATE u SET d = 'r'; INSERT INTO m VALUES (1);"}, nil, nil},
+			c10Scenario{"drop-column-big", map[string]string{"t.csv": big}, []string{"ALTER TABLE t DROP b"}, nil, nil},
 		)
 	}
 	return scs
@@ -106,6 +122,9 @@ func isControl(name string) bool { return strings.HasPrefix(name, ".") }
 func c10Prepare(dir string, sc c10Scenario) {
 	drv.ClearDir(dir)
 	drv.WriteFiles(dir, sc.Files)
+	for n, t := range sc.Links {
+		os.Symlink(t, filepath.Join(dir, n))
+	}
 }
 
 // c10Crash runs the scenario with a crash before point k (shim point, or k-th file system call under the
@@ -140,8 +159,9 @@ func c10Crash(c *core.Ctx, dir string, sc c10Scenario, mo string, k int, pt stri
 		unit = "system call"
 	}
 	snap := drv.DirSnapshot(dir)
-	names := make([]string, 0, len(sc.Files))
-	for n := range sc.Files {
+	old := sc.old()
+	names := make([]string, 0, len(old))
+	for n := range old {
 		names = append(names, n)
 	}
 	sort.Strings(names)
@@ -152,9 +172,9 @@ func c10Crash(c *core.Ctx, dir string, sc c10Scenario, mo string, k int, pt stri
 		case !exists:
 			c.Violate("missing-table:killed-before "+pt, fmt.Sprintf("scenario %s, killed before %s %d %s: %s no longer exists; directory: %v", sc.Name, unit, k, pt, n, keys(snap)), payload)
 			bad = true
-		case got != sc.Files[n] && got != newFiles[n] && !(midFiles != nil && got == midFiles[n]):
+		case got != old[n] && got != newFiles[n] && !(midFiles != nil && got == midFiles[n]):
 			c.Violate("mixed-or-truncated-table:killed-before "+pt, fmt.Sprintf("scenario %s, killed before %s %d %s: %s holds %q, neither the old (%d bytes) nor the new (%d bytes) contents",
-				sc.Name, unit, k, pt, n, clip(got), len(sc.Files[n]), len(newFiles[n])), payload)
+				sc.Name, unit, k, pt, n, clip(got), len(old[n]), len(newFiles[n])), payload)
 			bad = true
 		}
 	}
@@ -168,6 +188,9 @@ func c10Crash(c *core.Ctx, dir string, sc c10Scenario, mo string, k int, pt stri
 		}
 	}
 	for _, n := range names {
+		if strings.Contains(n, "/") {
+			continue // the target of a link in another directory is addressed through the link
+		}
 		tbl := strings.TrimSuffix(n, filepath.Ext(n))
 		r1 := procx.Exec(procx.Run{Dir: dir, Args: []string{"SELECT COUNT(*) FROM " + tbl}})
 		r2 := procx.Exec(procx.Run{Dir: dir, Args: []string{"INSERT INTO " + tbl + " SELECT * FROM " + tbl + " LIMIT 1"}})
